@@ -38,12 +38,13 @@ Section Phases.
     unfold read_var. rewrite E1, E3. reflexivity.
   Qed.
 
-  Lemma ve_before : forall l e s, (l < lo)%N -> ve l e s = s.
+  Lemma ve_before : forall l e s, nocomp_e e = true -> (l < lo)%N -> ve l e s = s.
   Proof.
-    intros l e. induction e as [x|z|o a IHa b IHb]; intros s H; simpl.
+    intros l e. induction e as [x|z|o a IHa b IHb|v k IHk body IHbody]; intros s NE H; simpl; [| | | simpl in NE; discriminate];
+      try (simpl in NE; apply andb_true_iff in NE; destruct NE as [NE1 NE2]).
     - apply rv_before. exact H.
     - reflexivity.
-    - rewrite IHa by exact H. apply IHb. exact H.
+    - rewrite IHa by assumption. apply IHb; assumption.
   Qed.
 
   Lemma wv_before : forall x l s, (l < lo)%N ->
@@ -82,29 +83,29 @@ Section Phases.
   Definition all_lt (ls : list N) : Prop := forall l, In l ls -> (l < lo)%N.
 
   Lemma pre_phase :
-    (forall s st, nocall_s s = true -> all_lt (slines s) -> cond st = false -> pre_rel (defs_s s) st (vs s st))
-    /\ (forall ss st, nocall ss = true -> all_lt (blines ss) -> cond st = false -> pre_rel (defs ss) st (vb ss st)).
+    (forall s st, nocall_s s = true -> nocomp_s s = true -> all_lt (slines s) -> cond st = false -> pre_rel (defs_s s) st (vs s st))
+    /\ (forall ss st, nocall ss = true -> nocomp ss = true -> all_lt (blines ss) -> cond st = false -> pre_rel (defs ss) st (vb ss st)).
   Proof.
     apply (stmt_blk_ind
-             (fun s => forall st, nocall_s s = true -> all_lt (slines s) -> cond st = false -> pre_rel (defs_s s) st (vs s st))
-             (fun ss => forall st, nocall ss = true -> all_lt (blines ss) -> cond st = false -> pre_rel (defs ss) st (vb ss st))).
+             (fun s => forall st, nocall_s s = true -> nocomp_s s = true -> all_lt (slines s) -> cond st = false -> pre_rel (defs_s s) st (vs s st))
+             (fun ss => forall st, nocall ss = true -> nocomp ss = true -> all_lt (blines ss) -> cond st = false -> pre_rel (defs ss) st (vb ss st))).
     - (* assign *)
-      intros l x e st _ AL C. assert (L : (l < lo)%N) by (apply AL; simpl; auto).
-      simpl. rewrite ve_before by exact L. rewrite wv_before by exact L.
+      intros l x e st _ NE AL C. assert (L : (l < lo)%N) by (apply AL; simpl; auto).
+      simpl. rewrite ve_before by (first [exact L | assumption]). rewrite wv_before by exact L.
       unfold pre_rel; simpl. repeat split; auto.
       + intros H. apply In_add in H. destruct H; [right; left; auto | left; assumption].
       + intros H. apply In_add. destruct H as [H|[H|[]]]; auto.
     - (* aug *)
-      intros l x o e st _ AL C. assert (L : (l < lo)%N) by (apply AL; simpl; auto).
-      simpl. rewrite ve_before by exact L. rewrite rv_before by exact L. rewrite wv_before by exact L.
+      intros l x o e st _ NE AL C. assert (L : (l < lo)%N) by (apply AL; simpl; auto).
+      simpl. rewrite ve_before by (first [exact L | assumption]). rewrite rv_before by exact L. rewrite wv_before by exact L.
       unfold pre_rel; simpl. repeat split; auto.
       + intros H. apply In_add in H. destruct H; [right; left; auto | left; assumption].
       + intros H. apply In_add. destruct H as [H|[H|[]]]; auto.
     - (* print *)
-      intros l e st _ AL C. assert (L : (l < lo)%N) by (apply AL; simpl; auto).
-      simpl. rewrite rv_before by exact L. rewrite ve_before by exact L. apply pre_rel_refl. exact C.
+      intros l e st _ NE AL C. assert (L : (l < lo)%N) by (apply AL; simpl; auto).
+      simpl. rewrite rv_before by exact L. rewrite ve_before by (first [exact L | assumption]). apply pre_rel_refl. exact C.
     - (* if *)
-      intros l c a b Ha Hb st NC AL C. assert (L : (l < lo)%N) by (apply AL; simpl; auto).
+      intros l c a b Ha Hb st NC NE AL C. simpl in NE; repeat (let N := fresh "NE" in apply andb_true_iff in NE; destruct NE as [NE N]). assert (L : (l < lo)%N) by (apply AL; simpl; auto).
       destruct (before_flags l L) as [E1 [E2 E3]].
       simpl in NC. apply andb_true_iff in NC. destruct NC as [NCa NCb].
       assert (ALa : all_lt (blines a)).
@@ -115,17 +116,17 @@ Section Phases.
       { destruct b as [|f b']; [reflexivity|]. apply andb_false_iff. right. apply N.ltb_ge.
         assert (line_of f < lo)%N by (apply ALb; simpl; apply in_or_app; left; apply line_in_slines). lia. }
       simpl vs. rewrite E3. unfold cond_enter. rewrite E1. unfold nest_enter, nest_exit. rewrite SB.
-      rewrite ve_before by exact L.
-      fold (vb a st). specialize (Ha st NCa ALa C).
+      rewrite ve_before by (first [exact L | assumption]).
+      fold (vb a st). specialize (Ha st NCa ltac:(assumption) ALa C).
       assert (Ca : cond (vb a st) = false) by (apply Ha).
-      fold (vb b (vb a st)). specialize (Hb (vb a st) NCb ALb Ca).
+      fold (vb b (vb a st)). specialize (Hb (vb a st) NCb ltac:(assumption) ALb Ca).
       pose proof (pre_rel_trans _ _ _ _ _ Ha Hb) as T.
       destruct T as (A1 & A2 & A3 & A4 & A5 & A6 & A7 & A8 & A9).
       unfold cond_exit, set_cond, pre_rel; simpl. repeat split; auto.
       + apply A9.
       + apply A9.
     - (* while *)
-      intros l c b e Hb He st NC AL C. assert (L : (l < lo)%N) by (apply AL; simpl; auto).
+      intros l c b e Hb He st NC NE AL C. simpl in NE; repeat (let N := fresh "NE" in apply andb_true_iff in NE; destruct NE as [NE N]). assert (L : (l < lo)%N) by (apply AL; simpl; auto).
       destruct (before_flags l L) as [E1 [E2 E3]].
       simpl in NC. apply andb_true_iff in NC. destruct NC as [NCb NCe].
       assert (ALb : all_lt (blines b)).
@@ -136,13 +137,13 @@ Section Phases.
       { destruct e as [|f e']; [reflexivity|]. apply andb_false_iff. right. apply N.ltb_ge.
         assert (line_of f < lo)%N by (apply ALe; simpl; apply in_or_app; left; apply line_in_slines). lia. }
       simpl vs. rewrite SB. rewrite E3. unfold loop_enter, loop_exit, cond_enter. rewrite E1, E2. unfold nest_enter, nest_exit.
-      rewrite ve_before by exact L.
+      rewrite ve_before by (first [exact L | assumption]).
       set (st1 := set_depth (depth st + 1)%Z st).
       fold (vb b st1).
       assert (C1 : cond st1 = false) by exact C.
-      specialize (Hb st1 NCb ALb C1).
+      specialize (Hb st1 NCb ltac:(assumption) ALb C1).
       assert (Cb : cond (vb b st1) = false) by (apply Hb).
-      fold (vb e (vb b st1)). specialize (He (vb b st1) NCe ALe Cb).
+      fold (vb e (vb b st1)). specialize (He (vb b st1) NCe ltac:(assumption) ALe Cb).
       pose proof (pre_rel_trans _ _ _ _ _ Hb He) as T.
       destruct T as (A1 & A2 & A3 & A4 & A5 & A6 & A7 & A8 & A9).
       unfold cond_exit, set_cond, set_depth, pre_rel; simpl. repeat split; auto.
@@ -150,7 +151,7 @@ Section Phases.
       + apply A9.
       + apply A9.
     - (* for *)
-      intros l x e b els Hb He st NC AL C. assert (L : (l < lo)%N) by (apply AL; simpl; auto).
+      intros l x e b els Hb He st NC NE AL C. simpl in NE; repeat (let N := fresh "NE" in apply andb_true_iff in NE; destruct NE as [NE N]). assert (L : (l < lo)%N) by (apply AL; simpl; auto).
       destruct (before_flags l L) as [E1 [E2 E3]].
       simpl in NC. apply andb_true_iff in NC. destruct NC as [NCb NCe].
       assert (ALb : all_lt (blines b)).
@@ -158,14 +159,14 @@ Section Phases.
       assert (ALe : all_lt (blines els)).
       { intros y Hy. apply AL. simpl. right. apply in_or_app. right. exact Hy. }
       simpl vs. rewrite E3. unfold loop_enter, loop_exit, cond_enter. rewrite E1, E2. unfold nest_enter, nest_exit.
-      rewrite rv_before by exact L. rewrite ve_before by exact L. rewrite wv_before by exact L.
+      rewrite rv_before by exact L. rewrite ve_before by (first [exact L | assumption]). rewrite wv_before by exact L.
       set (st1 := {| prew := add x (prew (set_depth (depth st + 1)%Z st)); mayw := _; wr := _; rd := _;
                      postrd := _; postwr := _; cond := _; depth := _; pnest := _ |}).
       fold (vb b st1).
       assert (C1 : cond st1 = false) by exact C.
-      specialize (Hb st1 NCb ALb C1).
+      specialize (Hb st1 NCb ltac:(assumption) ALb C1).
       assert (Cb : cond (vb b st1) = false) by (apply Hb).
-      fold (vb els (vb b st1)). specialize (He (vb b st1) NCe ALe Cb).
+      fold (vb els (vb b st1)). specialize (He (vb b st1) NCe ltac:(assumption) ALe Cb).
       pose proof (pre_rel_trans _ _ _ _ _ Hb He) as T.
       destruct T as (A1 & A2 & A3 & A4 & A5 & A6 & A7 & A8 & A9).
       unfold cond_exit, set_cond, set_depth, pre_rel; simpl. repeat split; auto.
@@ -178,20 +179,20 @@ Section Phases.
         * left. apply In_add. auto.
         * right. exact H.
     - (* return *)
-      intros l e st _ AL C. assert (L : (l < lo)%N) by (apply AL; simpl; auto).
-      simpl. rewrite ve_before by exact L. apply pre_rel_refl. exact C.
-    - intros l st _ _ C. simpl. apply pre_rel_refl. exact C.
-    - intros l st _ _ C. simpl. apply pre_rel_refl. exact C.
-    - intros l st _ _ C. simpl. apply pre_rel_refl. exact C.
+      intros l e st _ NE AL C. assert (L : (l < lo)%N) by (apply AL; simpl; auto).
+      simpl. rewrite ve_before by (first [exact L | assumption]). apply pre_rel_refl. exact C.
+    - intros l st _ _ _ C. simpl. apply pre_rel_refl. exact C.
+    - intros l st _ _ _ C. simpl. apply pre_rel_refl. exact C.
+    - intros l st _ _ _ C. simpl. apply pre_rel_refl. exact C.
     - intros l rets args body tail shared _ st NC. simpl in NC. discriminate.
-    - intros st _ _ C. apply pre_rel_refl. exact C.
-    - intros s r Hs Hr st NC AL C. rewrite nocall_cons in NC. apply andb_true_iff in NC. destruct NC as [NCs NCr].
+    - intros st _ _ _ C. apply pre_rel_refl. exact C.
+    - intros s r Hs Hr st NC NE AL C. simpl in NE; repeat (let N := fresh "NE" in apply andb_true_iff in NE; destruct NE as [NE N]). rewrite nocall_cons in NC. apply andb_true_iff in NC. destruct NC as [NCs NCr].
       rewrite visit_b_cons.
       assert (ALs : all_lt (slines s)) by (intros y Hy; apply AL; unfold blines; simpl; apply in_or_app; auto).
       assert (ALr : all_lt (blines r)) by (intros y Hy; apply AL; unfold blines; simpl; apply in_or_app; auto).
-      specialize (Hs st NCs ALs C).
+      specialize (Hs st NCs ltac:(assumption) ALs C).
       assert (Cs : cond (vs s st) = false) by apply Hs.
-      specialize (Hr (vs s st) NCr ALr Cs).
+      specialize (Hr (vs s st) NCr ltac:(assumption) ALr Cs).
       exact (pre_rel_trans _ _ _ _ _ Hs Hr).
   Qed.
 
@@ -251,17 +252,18 @@ Section Phases.
       + intros _. simpl. apply In_add. auto.
   Qed.
 
-  Lemma ve_inside : forall l e s, (lo <= l)%N -> (l <= hi)%N -> flat s ->
+  Lemma ve_inside : forall l e s, nocomp_e e = true -> (lo <= l)%N -> (l <= hi)%N -> flat s ->
     in_rel s (ve l e s) /\ wr (ve l e s) = wr s
     /\ (forall x, In x (vars_e e) -> mem x (wr s) = false -> In x (rd (ve l e s))).
   Proof.
-    intros l e. induction e as [x|z|o a IHa b IHb]; intros s H1 H2 F; simpl.
+    intros l e. induction e as [x|z|o a IHa b IHb|v k IHk body IHbody]; intros s NE H1 H2 F; simpl;
+      [| | | simpl in NE; discriminate]; try (simpl in NE; apply andb_true_iff in NE; destruct NE as [NE1 NE2]).
     - destruct (rv_inside_rel x l s H1 H2 F) as [R1 [R2 R3]]. split; [exact R1|]. split; [exact R2|].
       intros y [Hy|[]] Hm. subst y. apply R3. exact Hm.
     - split; [apply in_rel_refl; exact F|]. split; [reflexivity|]. intros x [].
-    - destruct (IHa s H1 H2 F) as [A1 [A2 A3]].
+    - destruct (IHa s NE1 H1 H2 F) as [A1 [A2 A3]].
       assert (Fa : flat (ve l a s)) by apply A1.
-      destruct (IHb (ve l a s) H1 H2 Fa) as [B1 [B2 B3]].
+      destruct (IHb (ve l a s) NE2 H1 H2 Fa) as [B1 [B2 B3]].
       split; [eapply in_rel_trans; eauto|]. split; [congruence|].
       intros x Hx Hm. apply in_app_or in Hx. destruct Hx as [Hx|Hx].
       + destruct B1 as (_ & _ & _ & _ & _ & _ & _ & B7 & _). apply B7. apply A3; assumption.
@@ -272,27 +274,28 @@ Section Phases.
 
   (* what the collector knows after the region: written = defs, read covers the upward-exposed uses *)
   Lemma region_phase : forall R st k,
-    straight R = true -> all_in R -> flat st ->
+    straight R = true -> nocomp R = true -> all_in R -> flat st ->
     in_rel st (vb R st)
     /\ (forall x, In x (wr (vb R st)) <-> In x (wr st) \/ In x (defs R))
     /\ (forall x, In x (live_b R k) -> mem x (wr st) = false -> In x (rd (vb R st)) \/ In x (kn k)).
   Proof.
-    induction R as [|s R IH]; intros st k SR AI F.
+    induction R as [|s R IH]; intros st k SR NCM AI F.
     - simpl. split; [apply in_rel_refl; exact F|]. split; [intros x; simpl; tauto|]. intros x Hx _. right. exact Hx.
     - simpl in SR. apply andb_true_iff in SR. destruct SR as [Ss SR].
+      simpl in NCM. apply andb_true_iff in NCM. destruct NCM as [NEs NCM].
       destruct (AI s (or_introl eq_refl)) as [L1 L2].
       assert (AIR : all_in R) by (intros y Hy; apply AI; right; exact Hy).
       rewrite visit_b_cons. rewrite live_b_cons. rewrite defs_cons.
       destruct s; try discriminate; simpl line_of in L1, L2.
       + (* assign *)
-        simpl vs. destruct (ve_inside l e st L1 L2 F) as [E1 [E2 E3]].
+        simpl vs. destruct (ve_inside l e st ltac:(assumption) L1 L2 F) as [E1 [E2 E3]].
         assert (Fe : flat (ve l e st)) by apply E1.
         set (st1 := wv x l (ve l e st)).
         assert (W : st1 = _) by (unfold st1; apply wv_inside; assumption).
         assert (F1 : flat st1) by (rewrite W; exact Fe).
         assert (R1 : in_rel (ve l e st) st1).
         { rewrite W. unfold in_rel; simpl. repeat split; auto; try apply Fe. intros y Hy. apply In_add. auto. }
-        destruct (IH st1 k SR AIR F1) as [I1 [I2 I3]].
+        destruct (IH st1 k SR NCM AIR F1) as [I1 [I2 I3]].
         split; [eapply in_rel_trans; [exact E1|]; eapply in_rel_trans; eauto|]. split.
         * intros y. rewrite I2. rewrite W. simpl. rewrite In_add. rewrite E2. simpl. intuition (subst; auto).
         * intros y Hy Hm. simpl in Hy. apply in_app_or in Hy. destruct Hy as [Hy|Hy].
@@ -302,7 +305,7 @@ Section Phases.
              rewrite W. simpl. apply mem_false. intros Hin. apply In_add in Hin. destruct Hin as [Hin|Hin]; [contradiction|].
              rewrite E2 in Hin. apply mem_false in Hm. contradiction.
       + (* aug *)
-        simpl vs. destruct (ve_inside l e st L1 L2 F) as [E1 [E2 E3]].
+        simpl vs. destruct (ve_inside l e st ltac:(assumption) L1 L2 F) as [E1 [E2 E3]].
         assert (Fe : flat (ve l e st)) by apply E1.
         destruct (rv_inside_rel x l (ve l e st) L1 L2 Fe) as [V1 [V2 V3]].
         assert (Fv : flat (rv x l (ve l e st))) by apply V1.
@@ -311,7 +314,7 @@ Section Phases.
         assert (F1 : flat st1) by (rewrite W; exact Fv).
         assert (R1 : in_rel (rv x l (ve l e st)) st1).
         { rewrite W. unfold in_rel; simpl. repeat split; auto; try apply Fv. intros y Hy. apply In_add. auto. }
-        destruct (IH st1 k SR AIR F1) as [I1 [I2 I3]].
+        destruct (IH st1 k SR NCM AIR F1) as [I1 [I2 I3]].
         split; [eapply in_rel_trans; [exact E1|]; eapply in_rel_trans; [exact V1|]; eapply in_rel_trans; eauto|]. split.
         * intros y. rewrite I2. rewrite W. simpl. rewrite In_add. rewrite V2, E2. simpl. intuition (subst; auto).
         * intros y Hy Hm. simpl in Hy.
@@ -330,24 +333,24 @@ Section Phases.
         simpl vs.
         destruct (rv_inside_rel name_print l st L1 L2 F) as [V1 [V2 V3]].
         assert (Fv : flat (rv name_print l st)) by apply V1.
-        destruct (ve_inside l e (rv name_print l st) L1 L2 Fv) as [E1 [E2 E3]].
+        destruct (ve_inside l e (rv name_print l st) ltac:(assumption) L1 L2 Fv) as [E1 [E2 E3]].
         assert (Fe : flat (ve l e (rv name_print l st))) by apply E1.
-        destruct (IH (ve l e (rv name_print l st)) k SR AIR Fe) as [I1 [I2 I3]].
+        destruct (IH (ve l e (rv name_print l st)) k SR NCM AIR Fe) as [I1 [I2 I3]].
         split; [eapply in_rel_trans; [exact V1|]; eapply in_rel_trans; eauto|]. split.
         * intros y. rewrite I2. rewrite E2, V2. simpl. tauto.
         * intros y Hy Hm. simpl in Hy. apply in_app_or in Hy. destruct Hy as [Hy|Hy].
           -- left. destruct I1 as (_ & _ & _ & _ & _ & _ & _ & I7 & _). apply I7. apply E3; [exact Hy | rewrite V2; exact Hm].
           -- apply I3; [exact Hy | rewrite E2, V2; exact Hm].
       + (* return *)
-        simpl vs. destruct (ve_inside l e st L1 L2 F) as [E1 [E2 E3]].
+        simpl vs. destruct (ve_inside l e st ltac:(assumption) L1 L2 F) as [E1 [E2 E3]].
         assert (Fe : flat (ve l e st)) by apply E1.
-        destruct (IH (ve l e st) k SR AIR Fe) as [I1 [I2 I3]].
+        destruct (IH (ve l e st) k SR NCM AIR Fe) as [I1 [I2 I3]].
         split; [eapply in_rel_trans; eauto|]. split.
         * intros y. rewrite I2. rewrite E2. simpl. tauto.
         * intros y Hy Hm. simpl in Hy. left.
           destruct I1 as (_ & _ & _ & _ & _ & _ & _ & I7 & _). apply I7. apply E3; assumption.
       + (* pass *)
-        simpl vs. destruct (IH st k SR AIR F) as [I1 [I2 I3]].
+        simpl vs. destruct (IH st k SR NCM AIR F) as [I1 [I2 I3]].
         split; [exact I1|]. split.
         * intros y. rewrite I2. simpl. tauto.
         * intros y Hy Hm. simpl in Hy. apply I3; assumption.
@@ -430,12 +433,13 @@ Section Phases.
       + intros y [].
   Qed.
 
-  Lemma ve_after : forall l e s, (hi < l)%N -> step [] (vars_e e) s (ve l e s).
+  Lemma ve_after : forall l e s, nocomp_e e = true -> (hi < l)%N -> step [] (vars_e e) s (ve l e s).
   Proof.
-    intros l e. induction e as [x|z|o a IHa b IHb]; intros s H; simpl.
+    intros l e. induction e as [x|z|o a IHa b IHb|v k IHk body IHbody]; intros s NE H; simpl;
+      [| | | simpl in NE; discriminate]; try (simpl in NE; apply andb_true_iff in NE; destruct NE as [NE1 NE2]).
     - apply rv_after. exact H.
     - apply step_same6. unfold same6. repeat split.
-    - exact (step_trans _ _ _ _ _ _ _ (IHa s H) (IHb _ H)).
+    - exact (step_trans _ _ _ _ _ _ _ (IHa s NE1 H) (IHb _ NE2 H)).
   Qed.
 
   Lemma same6_cond_enter : forall l s, same6 s (cond_enter lo hi l s).
@@ -454,24 +458,24 @@ Section Phases.
   Definition all_gt (ls : list N) : Prop := forall l, In l ls -> (hi < l)%N.
 
   Lemma post_phase :
-    (forall s st, nocall_s s = true -> all_gt (slines s) -> step (defs_s s) (reads_s s) st (vs s st))
-    /\ (forall ss st, nocall ss = true -> all_gt (blines ss) -> step (defs ss) (reads ss) st (vb ss st)).
+    (forall s st, nocall_s s = true -> nocomp_s s = true -> all_gt (slines s) -> step (defs_s s) (reads_s s) st (vs s st))
+    /\ (forall ss st, nocall ss = true -> nocomp ss = true -> all_gt (blines ss) -> step (defs ss) (reads ss) st (vb ss st)).
   Proof.
     apply (stmt_blk_ind
-             (fun s => forall st, nocall_s s = true -> all_gt (slines s) -> step (defs_s s) (reads_s s) st (vs s st))
-             (fun ss => forall st, nocall ss = true -> all_gt (blines ss) -> step (defs ss) (reads ss) st (vb ss st))).
-    - intros l x e st _ AG. assert (L : (hi < l)%N) by (apply AG; simpl; auto). simpl.
-      eapply step_weaken; [exact (step_trans _ _ _ _ _ _ _ (ve_after l e st L) (wv_after x l _ L)) | |]; simpl; auto.
+             (fun s => forall st, nocall_s s = true -> nocomp_s s = true -> all_gt (slines s) -> step (defs_s s) (reads_s s) st (vs s st))
+             (fun ss => forall st, nocall ss = true -> nocomp ss = true -> all_gt (blines ss) -> step (defs ss) (reads ss) st (vb ss st))).
+    - intros l x e st _ NE AG. assert (L : (hi < l)%N) by (apply AG; simpl; auto). simpl.
+      eapply step_weaken; [exact (step_trans _ _ _ _ _ _ _ (ve_after l e st ltac:(assumption) L) (wv_after x l _ L)) | |]; simpl; auto.
       intros y Hy. apply in_or_app. left. exact Hy.
-    - intros l x o e st _ AG. assert (L : (hi < l)%N) by (apply AG; simpl; auto). simpl.
+    - intros l x o e st _ NE AG. assert (L : (hi < l)%N) by (apply AG; simpl; auto). simpl.
       eapply step_weaken;
-        [exact (step_trans _ _ _ _ _ _ _ (step_trans _ _ _ _ _ _ _ (ve_after l e st L) (rv_after x l _ L)) (wv_after x l _ L)) | |];
+        [exact (step_trans _ _ _ _ _ _ _ (step_trans _ _ _ _ _ _ _ (ve_after l e st ltac:(assumption) L) (rv_after x l _ L)) (wv_after x l _ L)) | |];
         simpl; auto.
       intros y Hy. apply in_or_app. left. apply in_or_app. destruct Hy as [Hy|Hy]; [right; left; exact Hy | left; exact Hy].
-    - intros l e st _ AG. assert (L : (hi < l)%N) by (apply AG; simpl; auto). simpl.
-      eapply step_weaken; [exact (step_trans _ _ _ _ _ _ _ (rv_after name_print l st L) (ve_after l e _ L)) | |]; simpl; auto.
+    - intros l e st _ NE AG. assert (L : (hi < l)%N) by (apply AG; simpl; auto). simpl.
+      eapply step_weaken; [exact (step_trans _ _ _ _ _ _ _ (rv_after name_print l st L) (ve_after l e _ ltac:(assumption) L)) | |]; simpl; auto.
     - (* if *)
-      intros l c a b Ha Hb st NC AG. assert (L : (hi < l)%N) by (apply AG; simpl; auto).
+      intros l c a b Ha Hb st NC NE AG. simpl in NE; repeat (let N := fresh "NE" in apply andb_true_iff in NE; destruct NE as [NE N]). assert (L : (hi < l)%N) by (apply AG; simpl; auto).
       simpl in NC. apply andb_true_iff in NC. destruct NC as [NCa NCb].
       assert (AGa : all_gt (blines a)) by (intros y Hy; apply AG; simpl; right; apply in_or_app; left; exact Hy).
       assert (AGb : all_gt (blines b)) by (intros y Hy; apply AG; simpl; right; apply in_or_app; right; exact Hy).
@@ -484,10 +488,10 @@ Section Phases.
       assert (T1 : step [] [] st s1).
       { eapply step_weaken; [exact (step_trans _ _ _ _ _ _ _ (step_same6 _ _ (same6_cond_enter l st)) (step_same6 _ _ (same6_nest_enter after _))) | |]; simpl; auto. }
       assert (T2 : step (defs a) (vars_e c ++ reads a) s1 s2).
-      { eapply step_weaken; [exact (step_trans _ _ _ _ _ _ _ (ve_after l c s1 L) (Ha _ NCa AGa)) | |]; simpl; auto. }
+      { eapply step_weaken; [exact (step_trans _ _ _ _ _ _ _ (ve_after l c s1 ltac:(assumption) L) (Ha _ NCa ltac:(assumption) AGa)) | |]; simpl; auto. }
       assert (T3 : step (defs b) (reads b) s2 s3).
       { eapply step_weaken;
-          [exact (step_trans _ _ _ _ _ _ _ (step_trans _ _ _ _ _ _ _ (step_same6 _ _ (same6_nest_enter sib s2)) (Hb _ NCb AGb))
+          [exact (step_trans _ _ _ _ _ _ _ (step_trans _ _ _ _ _ _ _ (step_same6 _ _ (same6_nest_enter sib s2)) (Hb _ NCb ltac:(assumption) AGb))
                              (step_same6 _ _ (same6_nest_exit sib _))) | |]; simpl; auto.
         - intros y Hy. rewrite app_nil_r in Hy. exact Hy.
         - intros y Hy. rewrite app_nil_r. exact Hy. }
@@ -498,7 +502,7 @@ Section Phases.
       + intros y Hy. simpl in Hy. rewrite app_nil_r in Hy. exact Hy.
       + intros y Hy. simpl. rewrite app_nil_r. rewrite <- app_assoc. exact Hy.
     - (* while *)
-      intros l c b e Hb He st NC AG. assert (L : (hi < l)%N) by (apply AG; simpl; auto).
+      intros l c b e Hb He st NC NE AG. simpl in NE; repeat (let N := fresh "NE" in apply andb_true_iff in NE; destruct NE as [NE N]). assert (L : (hi < l)%N) by (apply AG; simpl; auto).
       simpl in NC. apply andb_true_iff in NC. destruct NC as [NCb NCe].
       assert (AGb : all_gt (blines b)) by (intros y Hy; apply AG; simpl; right; apply in_or_app; left; exact Hy).
       assert (AGe : all_gt (blines e)) by (intros y Hy; apply AG; simpl; right; apply in_or_app; right; exact Hy).
@@ -514,10 +518,10 @@ Section Phases.
                                               (step_same6 _ _ (same6_cond_enter l _))) (step_same6 _ _ (same6_nest_enter after _))) | |];
           simpl; auto. }
       assert (T2 : step (defs b) (vars_e c ++ reads b) s1 s2).
-      { eapply step_weaken; [exact (step_trans _ _ _ _ _ _ _ (ve_after l c s1 L) (Hb _ NCb AGb)) | |]; simpl; auto. }
+      { eapply step_weaken; [exact (step_trans _ _ _ _ _ _ _ (ve_after l c s1 ltac:(assumption) L) (Hb _ NCb ltac:(assumption) AGb)) | |]; simpl; auto. }
       assert (T3 : step (defs e) (reads e) s2 s3).
       { eapply step_weaken;
-          [exact (step_trans _ _ _ _ _ _ _ (step_trans _ _ _ _ _ _ _ (step_same6 _ _ (same6_nest_enter sib s2)) (He _ NCe AGe))
+          [exact (step_trans _ _ _ _ _ _ _ (step_trans _ _ _ _ _ _ _ (step_same6 _ _ (same6_nest_enter sib s2)) (He _ NCe ltac:(assumption) AGe))
                              (step_same6 _ _ (same6_nest_exit sib _))) | |]; simpl; auto.
         - intros y Hy. rewrite app_nil_r in Hy. exact Hy.
         - intros y Hy. rewrite app_nil_r. exact Hy. }
@@ -531,7 +535,7 @@ Section Phases.
       + intros y Hy. simpl in Hy. rewrite app_nil_r in Hy. exact Hy.
       + intros y Hy. simpl. rewrite app_nil_r. rewrite <- app_assoc. exact Hy.
     - (* for *)
-      intros l x e b els Hb He st NC AG. assert (L : (hi < l)%N) by (apply AG; simpl; auto).
+      intros l x e b els Hb He st NC NE AG. simpl in NE; repeat (let N := fresh "NE" in apply andb_true_iff in NE; destruct NE as [NE N]). assert (L : (hi < l)%N) by (apply AG; simpl; auto).
       simpl in NC. apply andb_true_iff in NC. destruct NC as [NCb NCe].
       assert (AGb : all_gt (blines b)) by (intros y Hy; apply AG; simpl; right; apply in_or_app; left; exact Hy).
       assert (AGe : all_gt (blines els)) by (intros y Hy; apply AG; simpl; right; apply in_or_app; right; exact Hy).
@@ -547,11 +551,11 @@ Section Phases.
           simpl; auto. }
       assert (T2 : step [x] (name_range :: vars_e e) s1 s2).
       { eapply step_weaken;
-          [exact (step_trans _ _ _ _ _ _ _ (step_trans _ _ _ _ _ _ _ (rv_after name_range l s1 L) (ve_after l e _ L)) (wv_after x l _ L)) | |];
+          [exact (step_trans _ _ _ _ _ _ _ (step_trans _ _ _ _ _ _ _ (rv_after name_range l s1 L) (ve_after l e _ ltac:(assumption) L)) (wv_after x l _ L)) | |];
           simpl; auto.
         intros y Hy. rewrite app_nil_r. exact Hy. }
       assert (T3 : step (defs b ++ defs els) (reads b ++ reads els) s2 s3).
-      { exact (step_trans _ _ _ _ _ _ _ (Hb _ NCb AGb) (He _ NCe AGe)). }
+      { exact (step_trans _ _ _ _ _ _ _ (Hb _ NCb ltac:(assumption) AGb) (He _ NCe ltac:(assumption) AGe)). }
       assert (T4 : step [] [] s3 (loop_exit current lo l (cond_exit current prev (nest_exit after s3)))).
       { eapply step_weaken;
           [exact (step_trans _ _ _ _ _ _ _ (step_trans _ _ _ _ _ _ _ (step_same6 _ _ (same6_nest_exit after s3))
@@ -562,17 +566,17 @@ Section Phases.
       + intros y Hy. simpl in Hy. rewrite app_nil_r in Hy. exact Hy.
       + intros y Hy. simpl. rewrite app_nil_r. simpl in Hy. destruct Hy as [Hy|Hy]; [left; exact Hy|].
         right. exact Hy.
-    - intros l e st _ AG. assert (L : (hi < l)%N) by (apply AG; simpl; auto). simpl. apply ve_after. exact L.
-    - intros l st _ _. simpl. apply step_same6. unfold same6. repeat split.
-    - intros l st _ _. simpl. apply step_same6. unfold same6. repeat split.
-    - intros l st _ _. simpl. apply step_same6. unfold same6. repeat split.
+    - intros l e st _ NE AG. assert (L : (hi < l)%N) by (apply AG; simpl; auto). simpl. apply ve_after; assumption.
+    - intros l st _ _ _. simpl. apply step_same6. unfold same6. repeat split.
+    - intros l st _ _ _. simpl. apply step_same6. unfold same6. repeat split.
+    - intros l st _ _ _. simpl. apply step_same6. unfold same6. repeat split.
     - intros l rets args body tail shared _ st NC. simpl in NC. discriminate.
-    - intros st _ _. apply step_same6. unfold same6. repeat split.
-    - intros s r Hs Hr st NC AG. rewrite nocall_cons in NC. apply andb_true_iff in NC. destruct NC as [NCs NCr].
+    - intros st _ _ _. apply step_same6. unfold same6. repeat split.
+    - intros s r Hs Hr st NC NE AG. simpl in NE; repeat (let N := fresh "NE" in apply andb_true_iff in NE; destruct NE as [NE N]). rewrite nocall_cons in NC. apply andb_true_iff in NC. destruct NC as [NCs NCr].
       rewrite visit_b_cons.
       assert (AGs : all_gt (slines s)) by (intros y Hy; apply AG; unfold blines; simpl; apply in_or_app; auto).
       assert (AGr : all_gt (blines r)) by (intros y Hy; apply AG; unfold blines; simpl; apply in_or_app; auto).
-      exact (step_trans _ _ _ _ _ _ _ (Hs st NCs AGs) (Hr _ NCr AGr)).
+      exact (step_trans _ _ _ _ _ _ _ (Hs st NCs ltac:(assumption) AGs) (Hr _ NCr ltac:(assumption) AGr)).
   Qed.
 End Phases.
 
@@ -661,12 +665,19 @@ Proof.
     (destruct (N.ltb hi l); [match goal with |- context [if ?c then _ else _] => destruct c end|]; reflexivity).
 Qed.
 
+Lemma pnest_wv : forall sw lo hi x l s, pnest (written_var sw lo hi x l s) = pnest s.
+Proof.
+  intros. unfold written_var.
+  repeat match goal with |- context [if ?c then _ else _] => destruct c end; reflexivity.
+Qed.
+
 Lemma pnest_ve : forall sw lo hi l e s, pnest (visit_e sw lo hi l e s) = pnest s.
 Proof.
-  intros sw lo hi l e. induction e as [x|z|o a IHa b IHb]; intros s; simpl.
+  intros sw lo hi l e. induction e as [x|z|o a IHa b IHb|v k IHk body IHbody]; intros s; simpl.
   - apply pnest_rv.
   - reflexivity.
   - rewrite IHb. apply IHa.
+  - rewrite IHk, pnest_rv, pnest_wv, IHbody. destruct (sw_compiter sw); [rewrite IHk, pnest_rv|]; apply pnest_rv.
 Qed.
 
 Section After.
@@ -774,12 +785,13 @@ Section After.
     - intros y [Hy|[]] _. subst y. apply In_add. auto.
   Qed.
 
-  Lemma nstep_ve : forall l e s, (hi < l)%N -> nstep (vars_e e) s (ve l e s).
+  Lemma nstep_ve : forall l e s, nocomp_e e = true -> (hi < l)%N -> nstep (vars_e e) s (ve l e s).
   Proof.
-    intros l e. induction e as [x|z|o a IHa b IHb]; intros s H; simpl.
+    intros l e. induction e as [x|z|o a IHa b IHb|v k IHk body IHbody]; intros s NE H; simpl;
+      [| | | simpl in NE; discriminate]; try (simpl in NE; apply andb_true_iff in NE; destruct NE as [NE1 NE2]).
     - apply nstep_rv. exact H.
     - apply nstep_same6. unfold same6. repeat split.
-    - exact (nstep_trans _ _ _ _ _ (IHa s H) (IHb _ H)).
+    - exact (nstep_trans _ _ _ _ _ (IHa s NE1 H) (IHb _ NE2 H)).
   Qed.
 
   Lemma nstep_wv_nested : forall x l s, (hi < l)%N -> (0 < pnest s)%Z -> nstep [] s (wv x l s).
@@ -789,26 +801,26 @@ Section After.
   Qed.
 
   Lemma nested_phase :
-    (forall s st, nocall_s s = true -> all_gt hi (slines s) -> (0 <= pnest st)%Z ->
+    (forall s st, nocall_s s = true -> nocomp_s s = true -> all_gt hi (slines s) -> (0 <= pnest st)%Z ->
         (0 < pnest st)%Z \/ compound s = true -> nstep (reads_s s) st (vs s st))
-    /\ (forall ss st, nocall ss = true -> all_gt hi (blines ss) -> (0 < pnest st)%Z -> nstep (reads ss) st (vb ss st)).
+    /\ (forall ss st, nocall ss = true -> nocomp ss = true -> all_gt hi (blines ss) -> (0 < pnest st)%Z -> nstep (reads ss) st (vb ss st)).
   Proof.
     apply (stmt_blk_ind
-             (fun s => forall st, nocall_s s = true -> all_gt hi (slines s) -> (0 <= pnest st)%Z ->
+             (fun s => forall st, nocall_s s = true -> nocomp_s s = true -> all_gt hi (slines s) -> (0 <= pnest st)%Z ->
                   (0 < pnest st)%Z \/ compound s = true -> nstep (reads_s s) st (vs s st))
-             (fun ss => forall st, nocall ss = true -> all_gt hi (blines ss) -> (0 < pnest st)%Z -> nstep (reads ss) st (vb ss st))).
-    - intros l x e st _ AG P0 [P|C]; [|discriminate]. assert (L : (hi < l)%N) by (apply AG; simpl; auto). simpl.
-      eapply nstep_weaken; [exact (nstep_trans _ _ _ _ _ (nstep_ve l e st L) (nstep_wv_nested x l _ L ltac:(rewrite pnest_ve; exact P))) |].
+             (fun ss => forall st, nocall ss = true -> nocomp ss = true -> all_gt hi (blines ss) -> (0 < pnest st)%Z -> nstep (reads ss) st (vb ss st))).
+    - intros l x e st _ NE AG P0 [P|C]; [|discriminate]. assert (L : (hi < l)%N) by (apply AG; simpl; auto). simpl.
+      eapply nstep_weaken; [exact (nstep_trans _ _ _ _ _ (nstep_ve l e st ltac:(assumption) L) (nstep_wv_nested x l _ L ltac:(rewrite pnest_ve; exact P))) |].
       intros y Hy. apply in_or_app. left. exact Hy.
-    - intros l x o e st _ AG P0 [P|C]; [|discriminate]. assert (L : (hi < l)%N) by (apply AG; simpl; auto). simpl.
+    - intros l x o e st _ NE AG P0 [P|C]; [|discriminate]. assert (L : (hi < l)%N) by (apply AG; simpl; auto). simpl.
       eapply nstep_weaken;
-        [exact (nstep_trans _ _ _ _ _ (nstep_trans _ _ _ _ _ (nstep_ve l e st L) (nstep_rv x l _ L))
+        [exact (nstep_trans _ _ _ _ _ (nstep_trans _ _ _ _ _ (nstep_ve l e st ltac:(assumption) L) (nstep_rv x l _ L))
                             (nstep_wv_nested x l _ L ltac:(rewrite pnest_rv, pnest_ve; exact P))) |].
       intros y Hy. apply in_or_app. left. apply in_or_app. destruct Hy as [Hy|Hy]; [right; left; exact Hy | left; exact Hy].
-    - intros l e st _ AG _ _. assert (L : (hi < l)%N) by (apply AG; simpl; auto). simpl.
-      exact (nstep_trans _ _ _ _ _ (nstep_rv name_print l st L) (nstep_ve l e _ L)).
+    - intros l e st _ NE AG _ _. assert (L : (hi < l)%N) by (apply AG; simpl; auto). simpl.
+      exact (nstep_trans _ _ _ _ _ (nstep_rv name_print l st L) (nstep_ve l e _ ltac:(assumption) L)).
     - (* if *)
-      intros l c a b Ha Hb st NC AG P0 _. assert (L : (hi < l)%N) by (apply AG; simpl; auto).
+      intros l c a b Ha Hb st NC NE AG P0 _. simpl in NE; repeat (let N := fresh "NE" in apply andb_true_iff in NE; destruct NE as [NE N]). assert (L : (hi < l)%N) by (apply AG; simpl; auto).
       simpl in NC. apply andb_true_iff in NC. destruct NC as [NCa NCb].
       assert (AGa : all_gt hi (blines a)) by (intros y Hy; apply AG; simpl; right; apply in_or_app; left; exact Hy).
       assert (AGb : all_gt hi (blines b)) by (intros y Hy; apply AG; simpl; right; apply in_or_app; right; exact Hy).
@@ -822,16 +834,16 @@ Section After.
       assert (T1 : nstep [] st s1).
       { eapply nstep_weaken; [exact (nstep_trans _ _ _ _ _ (nstep_same6 _ _ (same6_cond_enter lo hi l st)) (nstep_same6 _ _ (same6_nest_enter true _))) |]; simpl; auto. }
       assert (T2 : nstep (vars_e c ++ reads a) s1 s2).
-      { refine (nstep_trans _ _ _ _ _ (nstep_ve l c s1 L) (Ha _ NCa AGa _)). rewrite pnest_ve, P1. lia. }
+      { refine (nstep_trans _ _ _ _ _ (nstep_ve l c s1 ltac:(assumption) L) (Ha _ NCa ltac:(assumption) AGa _)). rewrite pnest_ve, P1. lia. }
       assert (P2 : pnest s2 = (pnest st + 1)%Z).
       { unfold s2. rewrite (proj2 pnest_post a _ AGa). rewrite pnest_ve. exact P1. }
-      assert (T3 : nstep (reads b) s2 s3) by (apply Hb; [exact NCb | exact AGb | rewrite P2; lia]).
+      assert (T3 : nstep (reads b) s2 s3) by (apply Hb; [exact NCb | assumption | exact AGb | rewrite P2; lia]).
       assert (T4 : nstep [] s3 (cond_exit current prev (nest_exit true s3))).
       { eapply nstep_weaken; [exact (nstep_trans _ _ _ _ _ (nstep_same6 _ _ (same6_nest_exit true s3)) (nstep_same6 _ _ (same6_cond_exit prev _))) |]; simpl; auto. }
       eapply nstep_weaken; [exact (nstep_trans _ _ _ _ _ (nstep_trans _ _ _ _ _ (nstep_trans _ _ _ _ _ T1 T2) T3) T4) |].
       intros y Hy. simpl. rewrite app_nil_r. rewrite <- app_assoc. exact Hy.
     - (* while *)
-      intros l c b e Hb He st NC AG P0 _. assert (L : (hi < l)%N) by (apply AG; simpl; auto).
+      intros l c b e Hb He st NC NE AG P0 _. simpl in NE; repeat (let N := fresh "NE" in apply andb_true_iff in NE; destruct NE as [NE N]). assert (L : (hi < l)%N) by (apply AG; simpl; auto).
       simpl in NC. apply andb_true_iff in NC. destruct NC as [NCb NCe].
       assert (AGb : all_gt hi (blines b)) by (intros y Hy; apply AG; simpl; right; apply in_or_app; left; exact Hy).
       assert (AGe : all_gt hi (blines e)) by (intros y Hy; apply AG; simpl; right; apply in_or_app; right; exact Hy).
@@ -848,10 +860,10 @@ Section After.
                                           (nstep_same6 _ _ (same6_cond_enter lo hi l _))) (nstep_same6 _ _ (same6_nest_enter true _))) |];
           simpl; auto. }
       assert (T2 : nstep (vars_e c ++ reads b) s1 s2).
-      { refine (nstep_trans _ _ _ _ _ (nstep_ve l c s1 L) (Hb _ NCb AGb _)). rewrite pnest_ve, P1. lia. }
+      { refine (nstep_trans _ _ _ _ _ (nstep_ve l c s1 ltac:(assumption) L) (Hb _ NCb ltac:(assumption) AGb _)). rewrite pnest_ve, P1. lia. }
       assert (P2 : pnest s2 = (pnest st + 1)%Z).
       { unfold s2. rewrite (proj2 pnest_post b _ AGb). rewrite pnest_ve. exact P1. }
-      assert (T3 : nstep (reads e) s2 s3) by (apply He; [exact NCe | exact AGe | rewrite P2; lia]).
+      assert (T3 : nstep (reads e) s2 s3) by (apply He; [exact NCe | assumption | exact AGe | rewrite P2; lia]).
       assert (T4 : nstep [] s3 (loop_exit current lo l (cond_exit current prev (nest_exit true s3)))).
       { eapply nstep_weaken;
           [exact (nstep_trans _ _ _ _ _ (nstep_trans _ _ _ _ _ (nstep_same6 _ _ (same6_nest_exit true s3))
@@ -860,7 +872,7 @@ Section After.
       eapply nstep_weaken; [exact (nstep_trans _ _ _ _ _ (nstep_trans _ _ _ _ _ (nstep_trans _ _ _ _ _ T1 T2) T3) T4) |].
       intros y Hy. simpl. rewrite app_nil_r. rewrite <- app_assoc. exact Hy.
     - (* for *)
-      intros l x e b els Hb He st NC AG P0 _. assert (L : (hi < l)%N) by (apply AG; simpl; auto).
+      intros l x e b els Hb He st NC NE AG P0 _. simpl in NE; repeat (let N := fresh "NE" in apply andb_true_iff in NE; destruct NE as [NE N]). assert (L : (hi < l)%N) by (apply AG; simpl; auto).
       simpl in NC. apply andb_true_iff in NC. destruct NC as [NCb NCe].
       assert (AGb : all_gt hi (blines b)) by (intros y Hy; apply AG; simpl; right; apply in_or_app; left; exact Hy).
       assert (AGe : all_gt hi (blines els)) by (intros y Hy; apply AG; simpl; right; apply in_or_app; right; exact Hy).
@@ -878,13 +890,13 @@ Section After.
           simpl; auto. }
       assert (T2 : nstep (name_range :: vars_e e) s1 s2).
       { eapply nstep_weaken;
-          [exact (nstep_trans _ _ _ _ _ (nstep_trans _ _ _ _ _ (nstep_rv name_range l s1 L) (nstep_ve l e _ L))
+          [exact (nstep_trans _ _ _ _ _ (nstep_trans _ _ _ _ _ (nstep_rv name_range l s1 L) (nstep_ve l e _ ltac:(assumption) L))
                               (nstep_wv_nested x l _ L ltac:(rewrite Pe; lia))) |].
         intros y Hy. rewrite app_nil_r. exact Hy. }
       assert (P2 : pnest s2 = (pnest st + 1)%Z) by (unfold s2; rewrite pnest_wv_after by exact L; exact Pe).
       assert (P3 : pnest (vb b s2) = (pnest st + 1)%Z) by (rewrite (proj2 pnest_post b _ AGb); exact P2).
       assert (T3 : nstep (reads b ++ reads els) s2 s3).
-      { refine (nstep_trans _ _ _ _ _ (Hb _ NCb AGb _) (He _ NCe AGe _)); [rewrite P2; lia | rewrite P3; lia]. }
+      { refine (nstep_trans _ _ _ _ _ (Hb _ NCb ltac:(assumption) AGb _) (He _ NCe ltac:(assumption) AGe _)); [rewrite P2; lia | rewrite P3; lia]. }
       assert (T4 : nstep [] s3 (loop_exit current lo l (cond_exit current prev (nest_exit true s3)))).
       { eapply nstep_weaken;
           [exact (nstep_trans _ _ _ _ _ (nstep_trans _ _ _ _ _ (nstep_same6 _ _ (same6_nest_exit true s3))
@@ -892,39 +904,40 @@ Section After.
           simpl; auto. }
       eapply nstep_weaken; [exact (nstep_trans _ _ _ _ _ (nstep_trans _ _ _ _ _ (nstep_trans _ _ _ _ _ T1 T2) T3) T4) |].
       intros y Hy. simpl. rewrite app_nil_r. simpl in Hy. destruct Hy as [Hy|Hy]; [left; exact Hy | right; exact Hy].
-    - intros l e st _ AG _ _. assert (L : (hi < l)%N) by (apply AG; simpl; auto). simpl. apply nstep_ve. exact L.
-    - intros l st _ _ _ _. simpl. apply nstep_same6. unfold same6. repeat split.
-    - intros l st _ _ _ _. simpl. apply nstep_same6. unfold same6. repeat split.
-    - intros l st _ _ _ _. simpl. apply nstep_same6. unfold same6. repeat split.
+    - intros l e st _ NE AG _ _. assert (L : (hi < l)%N) by (apply AG; simpl; auto). simpl. apply nstep_ve; assumption.
+    - intros l st _ _ _ _ _. simpl. apply nstep_same6. unfold same6. repeat split.
+    - intros l st _ _ _ _ _. simpl. apply nstep_same6. unfold same6. repeat split.
+    - intros l st _ _ _ _ _. simpl. apply nstep_same6. unfold same6. repeat split.
     - intros l rets args body tail shared _ st NC. simpl in NC. discriminate.
-    - intros st _ _ _. apply nstep_same6. unfold same6. repeat split.
-    - intros s r Hs Hr st NC AG P. rewrite nocall_cons in NC. apply andb_true_iff in NC. destruct NC as [NCs NCr].
+    - intros st _ _ _ _. apply nstep_same6. unfold same6. repeat split.
+    - intros s r Hs Hr st NC NE AG P. simpl in NE; repeat (let N := fresh "NE" in apply andb_true_iff in NE; destruct NE as [NE N]). rewrite nocall_cons in NC. apply andb_true_iff in NC. destruct NC as [NCs NCr].
       rewrite visit_b_cons.
       assert (AGs : all_gt hi (slines s)) by (intros y Hy; apply AG; unfold blines; simpl; apply in_or_app; auto).
       assert (AGr : all_gt hi (blines r)) by (intros y Hy; apply AG; unfold blines; simpl; apply in_or_app; auto).
-      refine (nstep_trans _ _ _ _ _ (Hs st NCs AGs ltac:(lia) (or_introl P)) (Hr _ NCr AGr _)).
+      refine (nstep_trans _ _ _ _ _ (Hs st NCs ltac:(assumption) AGs ltac:(lia) (or_introl P)) (Hr _ NCr ltac:(assumption) AGr _)).
       rewrite (proj1 pnest_post s st AGs). exact P.
   Qed.
 
   (* the statements that follow the region at the top level of the function body: every name live at their
      entry that is not yet postwritten becomes postread *)
   Lemma post_top : forall ss st x,
-    nocall ss = true -> all_gt hi (blines ss) -> pnest st = 0%Z ->
+    nocall ss = true -> nocomp ss = true -> all_gt hi (blines ss) -> pnest st = 0%Z ->
     In x (live_b ss k0) -> ~ In x (postwr st) -> In x (postrd (vb ss st)).
   Proof.
-    induction ss as [|s r IH]; intros st x NC AG P Hl Hn.
+    induction ss as [|s r IH]; intros st x NC NCM AG P Hl Hn.
     - simpl in Hl. contradiction.
     - rewrite nocall_cons in NC. apply andb_true_iff in NC. destruct NC as [NCs NCr].
+      simpl in NCM. apply andb_true_iff in NCM. destruct NCM as [NEs NEr]. fold (nocomp r) in NEr.
       assert (AGs : all_gt hi (slines s)) by (intros y Hy; apply AG; unfold blines; simpl; apply in_or_app; auto).
       assert (AGr : all_gt hi (blines r)) by (intros y Hy; apply AG; unfold blines; simpl; apply in_or_app; auto).
       rewrite visit_b_cons. rewrite live_b_cons in Hl. simpl kb in Hl. simpl kc in Hl.
       assert (Pr : pnest (vs s st) = 0%Z) by (rewrite (proj1 pnest_post s st AGs); exact P).
       assert (MONO : forall y, In y (postrd (vs s st)) -> In y (postrd (vb r (vs s st)))).
-      { intros y Hy. destruct (proj2 (post_phase lo hi LH) r (vs s st) NCr AGr) as (_ & _ & _ & _ & M & _). apply M. exact Hy. }
+      { intros y Hy. destruct (proj2 (post_phase lo hi LH) r (vs s st) NCr NEr AGr) as (_ & _ & _ & _ & M & _). apply M. exact Hy. }
       (* either the statement itself reads x first, or x is live after it and still not postwritten *)
       assert (G : In x (postrd (vs s st)) \/ (In x (live_b r k0) /\ ~ In x (postwr (vs s st)))).
       { destruct (compound s) eqn:CS.
-        - destruct (proj1 nested_phase s st NCs AGs ltac:(lia) (or_intror CS)) as (N1 & N2 & N3).
+        - destruct (proj1 nested_phase s st NCs NEs AGs ltac:(lia) (or_intror CS)) as (N1 & N2 & N3).
           destruct (proj1 live_reads s _ x Hl) as [R|[R|[R|R]]]; simpl in R; try contradiction.
           + left. apply N3; assumption.
           + right. split; [exact R | rewrite N1; exact Hn].
@@ -933,15 +946,15 @@ Section After.
           + (* assign *)
             apply in_app_or in Hl. destruct Hl as [Hl|Hl].
             * left. destruct (wv_after lo hi LH x0 l (ve l e st) L) as (_ & _ & _ & _ & M & _). apply M.
-              destruct (nstep_ve l e st L) as (_ & _ & N3). apply N3; assumption.
+              destruct (nstep_ve l e st ltac:(assumption) L) as (_ & _ & N3). apply N3; assumption.
             * apply In_remove in Hl. destruct Hl as [Hl Hne]. right. split; [exact Hl|].
               destruct (wv_after lo hi LH x0 l (ve l e st) L) as (_ & _ & _ & _ & _ & W & _).
               intros Hp. apply W in Hp. destruct Hp as [Hp|[Hp|[]]]; [|congruence].
-              destruct (nstep_ve l e st L) as (N1 & _). rewrite N1 in Hp. contradiction.
+              destruct (nstep_ve l e st ltac:(assumption) L) as (N1 & _). rewrite N1 in Hp. contradiction.
           + (* aug *)
             assert (RD : In x (x0 :: vars_e e) -> In x (postrd (wv x0 l (rv x0 l (ve l e st))))).
             { intros Hx. destruct (wv_after lo hi LH x0 l (rv x0 l (ve l e st)) L) as (_ & _ & _ & _ & M & _). apply M.
-              destruct (nstep_trans _ _ _ _ _ (nstep_ve l e st L) (nstep_rv x0 l _ L)) as (_ & _ & N3).
+              destruct (nstep_trans _ _ _ _ _ (nstep_ve l e st ltac:(assumption) L) (nstep_rv x0 l _ L)) as (_ & _ & N3).
               apply N3; [|exact Hn]. apply in_or_app. destruct Hx as [Hx|Hx]; [right; left; exact Hx | left; exact Hx]. }
             destruct Hl as [Hl|Hl]; [left; apply RD; left; exact Hl|].
             apply in_app_or in Hl. destruct Hl as [Hl|Hl]; [left; apply RD; right; exact Hl|].
@@ -949,14 +962,14 @@ Section After.
             right. split; [exact Hl|].
             destruct (wv_after lo hi LH x0 l (rv x0 l (ve l e st)) L) as (_ & _ & _ & _ & _ & W & _).
             intros Hp. apply W in Hp. destruct Hp as [Hp|[Hp|[]]]; [|congruence].
-            destruct (nstep_trans _ _ _ _ _ (nstep_ve l e st L) (nstep_rv x0 l _ L)) as (N1 & _). rewrite N1 in Hp. contradiction.
+            destruct (nstep_trans _ _ _ _ _ (nstep_ve l e st ltac:(assumption) L) (nstep_rv x0 l _ L)) as (N1 & _). rewrite N1 in Hp. contradiction.
           + (* print *)
-            destruct (nstep_trans _ _ _ _ _ (nstep_rv name_print l st L) (nstep_ve l e _ L)) as (N1 & _ & N3).
+            destruct (nstep_trans _ _ _ _ _ (nstep_rv name_print l st L) (nstep_ve l e _ ltac:(assumption) L)) as (N1 & _ & N3).
             apply in_app_or in Hl. destruct Hl as [Hl|Hl].
             * left. apply N3; [right; exact Hl | exact Hn].
             * right. split; [exact Hl | rewrite N1; exact Hn].
           + (* return *)
-            left. destruct (nstep_ve l e st L) as (_ & _ & N3). apply N3; assumption.
+            left. destruct (nstep_ve l e st ltac:(assumption) L) as (_ & _ & N3). apply N3; assumption.
           + (* pass *) right. split; [exact Hl | exact Hn].
           + contradiction.
           + contradiction. }
@@ -1037,7 +1050,8 @@ Proof.
   intros params pre R post H lc.
   unfold side_C03 in H.
   repeat (apply andb_true_iff in H; let H' := fresh "S" in destruct H as [H H']).
-  rename H into SR. rename S7 into ACC. rename S6 into NCpre. rename S5 into NCpost. rename S4 into L1.
+  rename H into SR. rename S10 into ACC. rename S9 into NCpre. rename S8 into NCpost.
+  rename S7 into NMpre. rename S6 into NMR. rename S5 into NMpost. rename S4 into L1.
   rename S3 into LPRE. rename S2 into LR. rename S1 into LPOST. rename S0 into DEFPRE. rename S into CV.
   split; [exact ACC|].
   set (lo := first_line R) in *. set (hi := last_line R) in *.
@@ -1059,14 +1073,14 @@ Proof.
   set (s0 := fold_left (fun acc p => written_var current lo hi p 1%N acc) params cst0).
   destruct (init_phase lo hi params L1 LH) as (I1 & I2 & I3 & I4 & I5 & I6 & I7 & I8 & I9). fold s0 in I1, I2, I3, I4, I5, I6, I7, I8, I9.
   set (s1 := visit_b current lo hi pre s0).
-  pose proof (proj2 (pre_phase lo hi LH) pre s0 NCpre AL I1) as P1. fold s1 in P1.
+  pose proof (proj2 (pre_phase lo hi LH) pre s0 NCpre NMpre AL I1) as P1. fold s1 in P1.
   destruct P1 as (P1 & P2 & P3 & P4 & P5 & P6 & P7 & P8 & P9).
   assert (F1 : flat s1) by (split; [exact P1 | rewrite P2, I2; lia]).
   set (s2 := visit_b current lo hi R s1).
-  destruct (region_phase lo hi R s1 k0 SR AI F1) as [Q1 [Q2 Q3]]. fold s2 in Q1, Q2, Q3.
+  destruct (region_phase lo hi R s1 k0 SR NMR AI F1) as [Q1 [Q2 Q3]]. fold s2 in Q1, Q2, Q3.
   destruct Q1 as (Q10 & Q11 & Q12 & Q13 & Q14 & Q15 & Q16 & Q17 & Q18).
   set (s3 := visit_b current lo hi post s2).
-  pose proof (proj2 (post_phase lo hi LH) post s2 NCpost AG) as T. fold s3 in T.
+  pose proof (proj2 (post_phase lo hi LH) post s2 NCpost NMpost AG) as T. fold s3 in T.
   destruct T as (T1 & T2 & T3 & T4 & T5 & T6 & T7).
   assert (CL : collect_loc current false params lc = s3).
   { unfold collect_loc, collect, lc. simpl region. fold lo hi. unfold orig. simpl plug.
@@ -1080,7 +1094,7 @@ Proof.
   assert (RD : forall x, In x (live_b R k0) -> In x (rd s3)).
   { intros x Hx. rewrite T2. destruct (Q3 x Hx) as [G|G]; [rewrite P5, I4; reflexivity | exact G | simpl in G; contradiction]. }
   assert (PRD : forall x, In x (defs R) -> In x (live_b post k0) -> In x (postrd s3)).
-  { intros x Hd Hl. apply (post_top lo hi LH post s2 x NCpost AG); [| exact Hl |].
+  { intros x Hd Hl. apply (post_top lo hi LH post s2 x NCpost NMpost AG); [| exact Hl |].
     - rewrite Q15, P3. exact I9.
     - rewrite Q14, P8, I7. simpl. tauto. }
   (* the hypotheses of the outlining lemma *)
